@@ -470,7 +470,18 @@ func runC16(o *out, r *rng, thorough bool, replay string) {
 		for _, c := range honest[:have] {
 			must(cstore.Put(ctx, c))
 		}
-		installResponder(sh, []scriptResp{{pending: uint64(have + extra), certs: honest[have : have+extra]}})
+		// in a third of the scenarios the response continues, after its honest prefix, with a corrupted variant of the next
+		// certificate (right instance, does not validate): the prefix is still stored, the cursor stops at its end and
+		// the verdict is illegal.  (An out-of-sequence certificate never reaches the poller: the client ends the stream.)
+		tamper := si%3 == 2 && have+extra < total
+		respCerts := append([]*certs.FinalityCertificate{}, honest[have:have+extra]...)
+		respPending := uint64(have + extra)
+		if tamper {
+			bad, _ := corrupt(r, honest[have+extra])
+			respCerts = append(respCerts, bad)
+			respPending = uint64(have + extra + 1)
+		}
+		installResponder(sh, []scriptResp{{pending: respPending, certs: respCerts}})
 		localPuts := 1 + r.intn(2) // 1 or 2 local instances finish meanwhile (extra >= 2)
 		if si%5 == 4 {
 			localPuts = 0
@@ -487,11 +498,14 @@ func runC16(o *out, r *rng, thorough bool, replay string) {
 		must(err)
 		res, err := p.Poll(ctx, sh.ID())
 		responderHook = nil
-		in := map[string]any{"client_had": have, "response_certs": extra, "local_puts_in_flight": localPuts, "scenario": "certificate stored locally while the request for it was in flight"}
+		in := map[string]any{"client_had": have, "response_certs": extra, "local_puts_in_flight": localPuts, "response_then_invalid_certificate": tamper, "scenario": "certificate stored locally while the request for it was in flight"}
 		if err != nil {
 			o.violate("poll never fails internally", "poller-internal-error", in, err.Error())
 		} else {
-			if res.Status == polling.PollIllegal {
+			if tamper && res.Status != polling.PollIllegal {
+				o.violate("the poller classifies the peer according to what it sent", "poller-invalid-certificate-not-illegal", in, fmt.Sprintf("a response continuing with an invalid certificate was classified %s", res.Status))
+			}
+			if !tamper && res.Status == polling.PollIllegal {
 				o.violate("the poller classifies the peer according to what it sent", "poller-honest-peer-branded", in, fmt.Sprintf("an honest response was classified %s: %v", res.Status, res.Error))
 			}
 			if p.NextInstance != uint64(have+extra) {
@@ -510,6 +524,9 @@ func runC16(o *out, r *rng, thorough bool, replay string) {
 			}
 			for j := 0; j < extra; j++ {
 				items = append(items, fmt.Sprintf("PollLocal.PCert %s true", cZ(int64(have+j))))
+			}
+			if tamper {
+				items = append(items, fmt.Sprintf("PollLocal.PCert %s false", cZ(int64(have+extra)))) // right instance, does not validate
 			}
 			latest := int64(-1)
 			if l := cstore.Latest(); l != nil {
